@@ -11,7 +11,7 @@
 (*   - the removal itself up to the reference-count decrement,             *)
 (*   - the decrement up to (if it was the last) the removal of the root,   *)
 (*   - the removal of the root.                                            *)
-(* Line kinds: gate cd env write probe childenv bg fail skip stop ro defer *)
+(* Line kinds: gate cd env write probe childenv bg fail skip stop ro defer deferfail *)
 (* nopath condexec bgfail wait bgnamed waitnamed.  Only bg / defer / fail / wait / skip /    *)
 (* stop / gate matter                                                      *)
 (* for the shared state; the others act on the script's private state.     *)
@@ -19,7 +19,7 @@
 EXTENDS Naturals, Sequences, FiniteSets, TLC
 
 CONSTANTS Batches,     \* set of records [scripts |-> <<[name, lines]>>, retain |-> BOOLEAN]
-          Bug,         \* "none" | "DecBeforeRemove" | "DeferFIFO" | "NoBgCleanupOnFail"
+          Bug,         \* "none" | "DecBeforeRemove" | "DeferFIFO" | "NoBgCleanupOnFail" | "DeferStopsOnFail"
           Record
 
 VARIABLES batch, pc, ip, verdict, bg, dstack, dran, wd, root, refCount, rootRemovals, sched
@@ -48,7 +48,7 @@ Seg(s, i, b, d) ==
   ELSE LET l == Lines(s)[i] IN
     CASE l = "gate"  -> [ip |-> i + 1, bg |-> b, d |-> d, v |-> "running", gate |-> TRUE]
       [] l = "bg"    -> Seg(s, i + 1, b + 1, d)
-      [] l = "defer" -> Seg(s, i + 1, b, Append(d, Len(d) + 1))
+      [] l \in {"defer", "deferfail"} -> Seg(s, i + 1, b, Append(d, Len(d) + 1))
       [] l = "fail"  -> [ip |-> i, bg |-> b, d |-> d, v |-> "fail", gate |-> FALSE]
       \* `wait` after a background command that already exited with an unaccepted status ("bgfail") fails at once,
       \* before it would wait for the commands started later: those are still alive when the failure path begins
@@ -77,16 +77,25 @@ RunLines(s) ==
      /\ pc' = [pc EXCEPT ![s] = IF r.gate THEN "lines" ELSE IF r.d # <<>> THEN "deferred" ELSE Final]
   /\ Note(s) /\ UNCHANGED <<batch, dran, root, refCount, rootRemovals>>
 
+\* the deferred functions that report a failure through T when they run (line kind "deferfail"): the k-th registered
+\* one fails iff the k-th defer / deferfail line of the script is a deferfail.  The run is then failed; the functions
+\* registered before it still run.
+DeferLines(s) == SelectSeq(Lines(s), LAMBDA l : l \in {"defer", "deferfail"})
+FailingDefer(s, k) == k <= Len(DeferLines(s)) /\ DeferLines(s)[k] = "deferfail"
 \* one deferred function (the driver's deferred functions yield before they record)
 RunDeferred(s) ==
   /\ pc[s] = "deferred" /\ dstack[s] # <<>>
   /\ LET k == IF Bug = "DeferFIFO" THEN Head(dstack[s]) ELSE dstack[s][Len(dstack[s])]
-         rest == IF Bug = "DeferFIFO" THEN Tail(dstack[s]) ELSE SubSeq(dstack[s], 1, Len(dstack[s]) - 1) IN
+         rest0 == IF Bug = "DeferFIFO" THEN Tail(dstack[s]) ELSE SubSeq(dstack[s], 1, Len(dstack[s]) - 1)
+         \* faulty variant: a deferred function that fails takes the ones registered before it down with it
+         rest == IF Bug = "DeferStopsOnFail" /\ FailingDefer(s, k) THEN <<>> ELSE rest0
+         v == IF FailingDefer(s, k) THEN "fail" ELSE verdict[s] IN
      /\ dran' = [dran EXCEPT ![s] = Append(@, k)]
      /\ dstack' = [dstack EXCEPT ![s] = rest]
+     /\ verdict' = [verdict EXCEPT ![s] = v]
      /\ pc' = [pc EXCEPT ![s] = IF rest = <<>> THEN Final ELSE "deferred"]
-     /\ bg' = [bg EXCEPT ![s] = IF rest = <<>> THEN CleanBg(@, verdict[s]) ELSE @]
-  /\ Note(s) /\ UNCHANGED <<batch, ip, verdict, wd, root, refCount, rootRemovals>>
+     /\ bg' = [bg EXCEPT ![s] = IF rest = <<>> THEN CleanBg(@, v) ELSE @]
+  /\ Note(s) /\ UNCHANGED <<batch, ip, wd, root, refCount, rootRemovals>>
 
 RemoveWorkdir(s) ==
   /\ pc[s] = "rmwd"
@@ -115,7 +124,9 @@ FairSpec == Spec /\ WF_vars(Next)
 -----------------------------------------------------------------------------
 Reverse(q) == [k \in 1..Len(q) |-> q[Len(q) + 1 - k]]
 \* deferred functions run in reverse order of registration, all of them, on every exit path
-DeferLIFO == \A s \in S : pc[s] \in {"rmwd", "dec", "rmroot", "done"} => dran[s] = Reverse([k \in 1..Len(dran[s]) |-> k])
+DeferLIFO == \A s \in S : pc[s] \in {"rmwd", "dec", "rmroot", "done"} =>
+                 /\ dran[s] = Reverse([k \in 1..Len(dran[s]) |-> k])
+                 /\ (ip[s] > Len(Lines(s)) => Len(dran[s]) = Len(DeferLines(s)))     \* a script that reached its end registered them all
 \* when everything has ended no process is alive and nothing is left (unless retention was requested)
 NothingLeft == Done => /\ \A s \in S : bg[s] = 0
                        /\ batch.retain \/ (root = "removed" /\ \A s \in S : wd[s] = "removed")
